@@ -938,6 +938,9 @@ def gen_progspec(rng, spec, n_progs=(1, 5)):
     stop = None
     if rng.random() < 0.3:
         stop = float(start + rng.uniform(0, 1) * max(s["dt"], s["end"] - start))
+        later = [float(x) for x in tgrid if x >= start]
+        if later and rng.random() < 0.5:
+            stop = float(_choice(rng, later))  # exactly a simulation time (the last one included): programs are still active at the stop year
     ins = {"start": start, "stop": stop, "alloc": {}, "capacity": {}, "coverage": {}}
     oyears = [float(y) for y in years] + [float(x) for x in tgrid[:: max(1, len(tgrid) // 4)]]
     for n in names:
